@@ -28,7 +28,7 @@ NOT_APPLICABLE.update({
     'C20': 'not claimed: signature recovery is curve arithmetic (see C17), predicate verification is a whole-VM run; the glue harnesses planned in DESIGN.md §7 were not built',
     'C27': 'not claimed: RuntimeBalances is a hashbrown map (K5) and the TR/TRO/MINT/BURN/SMO handlers need a recording InterpreterStorage; not built in the time available',
     'C30': 'not claimed: needs an InterpreterStorage implementation that records every access (RecStorage, DESIGN.md §7); not built in the time available',
-    'C31': 'not claimed: whole-run equivalence is beyond bounded symbolic execution; the init/reset one-step harness planned in DESIGN.md §7 was not built',
+    'C31': 'not claimed: whole-run equivalence of arbitrary transaction pairs is beyond bounded symbolic execution; the reduction to the initialisation step was built (harness/incrate/vm/c31_init.rs: the real init_predicate -> init_inner on a dirty interpreter versus a fresh one) but CBMC gives no verdict within 1200 s even for a fully concrete one-input transaction on a fresh interpreter with hashing and RuntimeBalances::to_vm stubbed (DESIGN.md 13.5); MemoryInstance::reset and zeroing on regrowth, the memory part of the mechanism, are decided under C23',
     'C32': 'not claimed: whole-run equivalence is beyond bounded symbolic execution; the Debugger::eval_state harness planned in DESIGN.md §7 was not built',
     'C33': 'not claimed: every storage instruction goes through Interpreter::storage_slot_cache, a hard-wired BTreeMap<(ContractId, Bytes32), Option<Vec<u8>>> with 64-byte keys, and through the storage back end; a slot-kernel harness pair (storage_read_slot cache transparency, storage_write_slot; harness/incrate/vm/c33_storage_slots.rs) gives CBMC no verdict within 1200 s, and B-tree tables with 32/64-byte keys gave no verdict in any other harness of this code base either (DESIGN.md 13.2); the storage back end can be replaced by an association list (slot_storage.rs) but the cache cannot without rewriting the code under test',
     'C35': 'not claimed: the upload/deploy/blob/upgrade step harnesses planned in DESIGN.md §7 (hook H3 into executors/main.rs) were not built in the time available',
